@@ -1,10 +1,10 @@
-(* C07/A_Wedge.v — part A, finding F20: a delayed negative AppEntsResp can move the leader's nextIndex for a follower to or
+(* C07/A_Wedge.v — part A, finding F23: a delayed negative AppEntsResp can move the leader's nextIndex for a follower to or
    below matchIndex.  From then on (as long as this leader stays leader) every message the leader builds for that
    follower is an entry-less probe strictly below matchIndex, and every answer to such a probe — positive or negative —
    is discarded as stale, so the peer entry never changes again: the follower cannot catch up.  Safety is not
-   affected.  The model follows the code; the repair is fixes/F20-*.patch. *)
+   affected.  The model follows the code; the repair is fixes/F23-*.patch. *)
 From Coq Require Import List NArith ZArith Bool Lia.
-From BLB Require Import Raft.Core Raft.Wire Raft.Legit C07.A_Witness.
+From BLB Require Import Raft.Core Raft.Wire Raft.Legit Raft.NodeLeader C07.A_Witness.
 Import ListNotations.
 Open Scope N_scope.
 
@@ -66,15 +66,35 @@ Definition leader_view (c : cluster) (leader follower : N) : option (N * N * N) 
   | None => None
   end.
 
-Lemma f20_witness_ok :
-  legit_schedule f20_witness = true /\
-  exists c nx mt li, final_state f20_witness = Some c /\ leader_view c 1 3 = Some (nx, mt, li) /\
-                     nx <= mt /\ mt < li /\
-                     (exists s, get_node 1 c = Some s /\ n_role s = Leader).
+(* F23 is fixed: a negative answer can no longer move nextIndex to or below matchIndex *)
+Lemma negative_response_keeps_next_above_match s from p ix hi s' :
+  peer_get from (l_peers s) = Some p -> pr_match p <= ix ->
+  handle_app_ents_resp s from false ix hi = Ret s' ->
+  exists p', peer_get from (l_peers s') = Some p' /\ pr_match p' < pr_next p'.
+Proof.
+  intros Hp Hge. unfold handle_app_ents_resp. rewrite Hp.
+  assert (E : (ix <? pr_match p) = false) by (apply N.ltb_ge; exact Hge). rewrite E. simpl.
+  pose proof (peer_get_id _ _ _ Hp) as Hid.
+  unfold send_app_ents.
+  match goal with |- bind (get_app_ents ?s1 ?p2) _ = _ -> _ =>
+    assert (Hnm : pr_match p2 < pr_next p2) by
+      (simpl; destruct ((if negb (hi =? 0) then hi else ix) <=? pr_match p) eqn:C; [lia | apply N.leb_gt in C; lia]);
+    assert (Hid2 : pr_id p2 = from) by (simpl; exact Hid);
+    destruct (get_app_ents s1 p2) as [ob | |]; simpl; try discriminate end.
+  destruct ob as [b |].
+  - intro H. inversion H. simpl. rewrite peer_get_set. simpl. rewrite Hid, N.eqb_refl.
+    eexists. split; [reflexivity|]. simpl. simpl in Hnm. exact Hnm.
+  - destruct (p_snap (n_p s)); simpl; try discriminate. destruct (sn_conf s0); simpl; try discriminate.
+    intro H. inversion H. simpl. rewrite peer_get_set. simpl. rewrite Hid, N.eqb_refl.
+    eexists. split; [reflexivity|]. simpl. simpl in Hnm. exact Hnm.
+Qed.
+
+Lemma f23_schedule_not_wedged :
+  legit_schedule f23_witness = true /\
+  exists c nx mt li, final_state f23_witness = Some c /\ leader_view c 1 3 = Some (nx, mt, li) /\ mt < nx.
 Proof.
   split; [vm_compute; reflexivity|].
-  destruct (final_state f20_witness) as [c |] eqn:E; [| vm_compute in E; discriminate].
+  destruct (final_state f23_witness) as [c |] eqn:E; [| vm_compute in E; discriminate].
   vm_compute in E. inversion E. subst c. clear E.
-  eexists. exists 1, 1, 2. split; [reflexivity|]. split; [vm_compute; reflexivity|].
-  split; [lia|]. split; [lia|]. eexists. split; [vm_compute; reflexivity | reflexivity].
+  eexists. exists 2, 1, 2. split; [reflexivity|]. split; [vm_compute; reflexivity | lia].
 Qed.
